@@ -214,6 +214,24 @@ def run_case(case):
                         v('c16-curvature-matrix', 'curvature_matrix @ d differs from the rotation of the NED '
                           'frame by %.3e rad for a %g m displacement %r at %r (bound %.3e)'
                           % (r_, s, dvec.tolist(), lla.tolist(), bound))
+    # lla_to_ned: default origin = first row, DataFrame form keeps the time index and names the columns
+    if abs(lat_d) <= 85.0:
+        import pandas as pd
+        pts = np.array([[lat_d, lon_d, 100.0], transform.perturb_lla([lat_d, lon_d, 100.0], [300.0, -200.0, 50.0]),
+                        transform.perturb_lla([lat_d, lon_d, 100.0], [-50.0, 700.0, -20.0])])
+        ned_default = transform.lla_to_ned(pts)
+        ned_explicit = transform.lla_to_ned(pts, pts[0])
+        if (ned_default != ned_explicit).any() or np.abs(ned_default[0]).max() != 0.0:
+            v('c16-lla-to-ned-default-origin', 'lla_to_ned without origin is not relative to the first row')
+        df = pd.DataFrame(pts, index=[5.0, 6.0, 7.5], columns=['lat', 'lon', 'alt'])
+        nd = transform.lla_to_ned(df)
+        if list(nd.columns) != ['north', 'east', 'down'] or list(nd.index) != [5.0, 6.0, 7.5] or \
+                (nd.values != ned_default).any():
+            v('c16-forms', 'DataFrame form of lla_to_ned differs from the array form / loses the time index')
+        exp = np.array([[0, 0, 0], [300.0, -200.0, 50.0], [-50.0, 700.0, -20.0]])
+        if np.abs(ned_default - exp).max() > 2.0 * 760.0 ** 2 / 6.3e6 * (1 + abs(np.tan(lat))) + 1e-6:
+            v('c16-first-order:perturb-vs-ned', 'lla_to_ned of perturbed points differs from the perturbations by %.3e m'
+              % np.abs(ned_default - exp).max())
     first = {}
     for x in viol:
         first.setdefault(x['sig'], x)
